@@ -108,6 +108,17 @@ CLAIMED = {
             "Trusted: Lean kernel (core-only), heap program renderer, harness hook (collect at statement boundary k iff schedule(k)), "
             "ThreadSanitizer. Defects found and repaired: temporaries not treated as roots, destructor runs depending on the schedule.",
             "DESIGN.md §4 C11"),
+    "C12": ("Lean 4 theorems about the operator layer of the evaluator model (every refusal of the binary/unary operator cascades, "
+            "array reads and array writes is a runtime diagnostic located at the operator, for all operand values; int/long wrap-around "
+            "stays in range; modulo by zero / by -1 are defined) + the real pipeline built with ASan+UBSan run on an arithmetic edge matrix, "
+            "type-directed edge programs, class/heap/scope programs, runtime errors injected at every depth while objects are alive, deep "
+            "hierarchies with overloaded virtual methods",
+            "Proof on the model for every operand value; PARTIAL: memory safety, teardown after an error and the absence of raw C++ "
+            "exceptions are properties of the C++ that the model cannot exhibit: they are observed with sanitizers on generated programs "
+            "(bounded), not proved.",
+            "Trusted: Lean kernel (core-only), ASan/UBSan (signed-overflow and float-cast checks excluded: they do not crash and their "
+            "results are modelled), generators, harness+orchestrator. Defects found and repaired: long % -1, vtable dangling pointers, "
+            "teardown use-after-free, throwing destructors, endScope re-entrancy, out-of-range literals.", "DESIGN.md §4 C12"),
 }
 PENDING_REASON = "check not built yet in this revision of /verif (planned: Lean model + correspondence, see DESIGN.md §4)"
 
